@@ -977,6 +977,10 @@ func (c *Compiler) BuildModule(module *parse.Module, m parse.Node) schema.Model 
 	c.CheckChildren(m, m)
 	rpcs := make(map[string]schema.Rpc)
 	for _, r := range m.ChildrenByType(parse.NodeRpc) {
+		if c.IgnoreNode(r, schema.Current) {
+			// an if-feature of the rpc is not enabled
+			continue
+		}
 		input := r.ChildByType(parse.NodeInput)
 		inputTree := c.buildSchemaTree(m, input)
 
@@ -989,6 +993,10 @@ func (c *Compiler) BuildModule(module *parse.Module, m parse.Node) schema.Model 
 
 	notifications := make(map[string]schema.Notification)
 	for _, n := range m.ChildrenByType(parse.NodeNotification) {
+		if c.IgnoreNode(n, schema.Current) {
+			// an if-feature of the notification is not enabled
+			continue
+		}
 		notificationTree := c.buildSchemaTree(m, n)
 		notification := schema.NewNotification(notificationTree)
 		notifications[n.Name()] = c.extendNotification(n, notification)
